@@ -16,7 +16,7 @@ fn rule(prop: &str) -> &'static str {
     }
 }
 
-fn run_worker(mode: &str, seed: u64, first: u64, count: u64) -> Vec<Value> {
+pub fn run_worker(mode: &str, seed: u64, first: u64, count: u64) -> Vec<Value> {
     run_worker_with(&crate::session::self_exe(), &[], mode, seed, first, count)
 }
 
